@@ -280,13 +280,14 @@ CONFIGS = [
 
 def gen_docs(chk):
     rng = chk.rng
-    ndocs = 5 if chk.tier == "quick" else 60
+    ndocs = 5 if chk.tier == "quick" else 120
     docs = []
     # the recorded findings first, so that every run re-observes them (or sees them gone)
     docs.append([[b"q BI /W 1 /H 1 /BPC 8 /CS /G ID ab EI\x0b(\r) cd EI Q 1 2 3 4 5 6 7 8 9 10 11 12\n"],
                  [b"q BI /W 2 /H 1 /BPC 8 /CS [/I /RGB 1 <000000ffffff>] ID \x00\x01 EI Q\n"],
                  [b"q BI /W 1 /H 1 /BPC 8 /ColorSpace /DeviceGray ID \x80\x81 EI Q\n"],
                  [b"q BI /W 1 /H 1 /BPC 8 /CS /G ID\x00\x80\x81 EI Q\n"],
+                 [b"q BI /W 1 /H 1 /BPC 8 /CS /G ID \x80 EI Q 10 0 d0 /Fm1 Do q BI /W 1 /H 1 /BPC 8 /CS /G ID \x81 EI Q\n"],
                  [b"q (plain\r) Tj Q\n"]])
     for di in range(ndocs):
         pages = []
@@ -401,6 +402,7 @@ def part_cli(chk, runner):
             sems = [sem_of[s] for s in ps]
             pdesc = {"page": pi, "input_streams": [repr(s) for s in ps], "output_streams": [repr(s)[:600] for s in os_]}
             if extern:
+                pdesc["fragments"] = any(x == "invalid" for x in sems)
                 checks.append(("extern", ji, pi, ps, os_, ores, sd, min_bytes, pdesc))
                 continue
             if coalescing and len(ps) > 1:
@@ -524,9 +526,18 @@ def check_extern(chk, name, desc, pdesc, ps, os_, ores, sd, min_bytes, got, whol
     rc, se, out = result
     stderr = se.decode("latin-1")
 
+    def d0_after_image():
+        toks = whole.split(" ")
+        for i, t in enumerate(toks):
+            if t.startswith("img:") and any(x in ("op:6430", "op:6431") for x in toks[i + 1:i + 11]):
+                return True
+        return False
+
     def fail(why, sig="C16:cli:externalize", **kw):
         if any(b"EI\x0b" in x for x in ps):
             sig = "C16:cli:ei-vt"          # the image was ended at EI<VT> (finding C16-F1)
+        elif whole != "invalid" and d0_after_image():
+            sig = "C16:cli:findei-d0"      # the true EI was rejected because d0/d1 follows (finding C16-F6)
         chk.violation(dict({"kind": "property-fails-on-implementation", "part": "cli-" + name, "why": why, "exit": rc, "stderr": stderr[-600:]}, **desc, **pdesc, **kw),
                       signature=sig)
     if whole == "invalid" or any(g == "invalid" for g in got):
@@ -539,8 +550,9 @@ def check_extern(chk, name, desc, pdesc, ps, os_, ores, sd, min_bytes, got, whol
     for g in got:
         gtoks += g.split(" ") if g != "-" else []
     if not big:
-        # nothing to convert: the page keeps its streams
-        if got[0] != whole:
+        # nothing to convert: the page keeps its streams (a page split inside a token is compared stream by stream by the
+        # normalisation jobs, not here)
+        if got[0] != whole and not pdesc.get("fragments"):
             fail("page content reads differently although no inline image reaches --ii-min-bytes", expected=whole[:500], got=got[0][:500])
         return
     xo = deref(sd, ores.get(b"XObject")) or {}
